@@ -8,6 +8,14 @@ using namespace vh;
 using gen::Msg;
 
 static GuardBuf *G;
+// every capacity 0..needed+8 for encodings up to 2 KiB; above that every capacity below 96, every capacity from
+// needed-96 on, and every 61st in between (the sweep is quadratic in `needed`)
+static size_t next_cap(size_t cap, size_t need)
+{
+    if(need <= 2048 || cap < 96 || cap + 96 >= need) return cap + 1;
+    size_t n = cap + 61;
+    return n + 96 >= need ? need - 96 : n;
+}
 
 // verdict on one construction call into a buffer of capacity `cap`
 static void judge(const char *who, size_t ret, size_t cap, const ref::bytes &rb, const std::string &desc,
@@ -63,7 +71,8 @@ static void run_message(Rng &r)
             if(q3 != need) fail("null_size_query_message", {}, desc, std::to_string(q3), std::to_string(need));
         }
     }
-    for(size_t cap = 0; cap <= need + 8; ++cap) {
+    for(size_t cap = 0; cap <= need + 8; cap = next_cap(cap, need)) {
+        g_progress.fetch_add(1, std::memory_order_relaxed);
         G->place(cap);
         judge("amessage", rtosc_amessage(G->p, cap, m.addr.c_str(), m.types.c_str(), ap.data()), cap, rb, desc, {});
         if(va_ok) { G->place(cap); judge("vmessage", vp.call(G->p, cap, m), cap, rb, desc, {}); }
@@ -90,7 +99,8 @@ static void run_bundle(Rng &r)
     for(auto &k : b.kids) { ref::bytes e = k.encode(); e.insert(e.end(), 8, 0); eb.push_back(e); }
     for(auto &e : eb) ep.push_back((const char *)e.data());
     count(fmt("bundle.elements_%zu", b.kids.size()));
-    for(size_t cap = 0; cap <= need + 8; ++cap) {
+    for(size_t cap = 0; cap <= need + 8; cap = next_cap(cap, need)) {
+        g_progress.fetch_add(1, std::memory_order_relaxed);
         G->place(cap);
         size_t ret = gen::call_bundle(G->p, cap, b.tt, ep);
         judge("bundle", ret, cap, rb, desc, {cap < 16 ? "cap_below_header" : "cap_ge_header"});
